@@ -648,8 +648,12 @@ func init() {
 			return v, out
 		}
 		sessions := c.scale(250, 2500)
+		var cases []Case
 		for si := 0; si < sessions; si++ {
 			r := &rjson.ValueReader{}
+			// the stateful model is run on the same history (sessions without the 10,000-deep documents)
+			histOK := true
+			var histLine, histImpl []string
 			type kept struct {
 				v    interface{}
 				copy interface{}
@@ -667,7 +671,16 @@ func init() {
 					d = deep[c.Rng.Intn(len(deep))]
 				}
 				d = exact(d)
+				if len(d) > 8192 {
+					histOK = false
+				}
+				hxd := hx(d)
 				v, got := call(r, kind, d)
+				if histOK {
+					st := rjson.VerifReaderState(r)
+					histLine = append(histLine, fmt.Sprintf("%d:%s", kind, hxd))
+					histImpl = append(histImpl, fmt.Sprintf("%s d=%d nm=%d lm=%d mm=%d ns=%d ls=%d", got, st.Depth, st.NewMapSize, st.LastMapSize, st.MaxMapSize, st.NewSliceSize, st.LastSliceSize))
+				}
 				_, want := call(&rjson.ValueReader{}, kind, exact(d))
 				s.Evaluations++
 				s.Classes[fmt.Sprintf("kind%d", kind)]++
@@ -705,8 +718,14 @@ func init() {
 					d[k] = 0xEE
 				}
 			}
+			if histOK && len(histLine) > 0 {
+				cases = append(cases, Case{Line: "VRHistory " + strings.Join(histLine, " "), Impl: strings.Join(histImpl, " | "), Class: "history:stateful-model"})
+			}
 		}
-		return "sequences of 2-14 (every 25th: 50) ReadValue/ReadObject/ReadArray calls on one ValueReader over valid, malformed and depth-limit documents; each outcome compared with a fresh reader's; all results kept so far deep-compared with copies taken at return time after every later call, after the caller clobbered later results and after the inputs were overwritten", nil
+		if err := s.Run(cases); err != nil {
+			return "", err
+		}
+		return "sequences of 2-14 (every 25th: 50) ReadValue/ReadObject/ReadArray calls on one ValueReader over valid, malformed and depth-limit documents; each outcome compared with a fresh reader's; all results kept so far deep-compared with copies taken at return time after every later call, after the caller clobbered later results and after the inputs were overwritten; every history without 10,000-deep documents is also run through the stateful Lean model of the reader (Model.ReaderState: depth, size hints, pool oracle) and the outcome and the reader's own depth / size-hint fields after every call are compared", nil
 	}
 }
 
